@@ -744,3 +744,82 @@ register(Obligation(name="C16.get_Esic.formula", prop=PROP, engine="Z", function
 register(Obligation(name="C16.get_Esic.one_electron", prop=PROP, engine="Z", functions=["eminus.energies:get_Esic", "eminus.energies:Energy.Etot"], run=Esic("one_electron"),
                     assumes=("engineZ", "z3", "callee-contract"),
                     doc="one electron: the total energy (sum of all Energy fields) contains no Hartree / XC self-interaction: E_H[n] + E_xc[n,0] + Esic = 0"))
+
+
+class ExcSameFunctional:
+    """The per-orbital XC energy of the SIC is evaluated with the functional AND the functional parameters of the SCF object
+    (otherwise E_SI is not 'its fully spin-polarised XC energy' for the functional the total energy uses)."""
+
+    def __call__(self, ob, tier, seed):
+        try:
+            w = World()
+            mod = w.module("eminus.energies")
+            seen = []
+
+            def get_exc(it, a, k):
+                names = ["xc", "n_spin", "Nspin", "dn_spin", "tau", "xc_params", "dens_threshold"]
+                d = dict(zip(names, a))
+                d.update(k)
+                seen.append(d)
+                return it.w.uf("exc", [d.get("xc"), d.get("n_spin"), d.get("Nspin"), d.get("dn_spin"), d.get("tau"), d.get("xc_params")], "val")
+
+            ext = dict(NUM_EXT)
+            ext["func:get_exc"] = get_exc
+            ext["get_exc"] = get_exc
+            ext["float"] = lambda it, a, k: a[0]
+            scf = ZStub()
+            scf.atoms = named(w, "atoms", "val")
+            scf.xc = named(w, "scf.xc", "val")
+            scf.xc_params = named(w, "scf.xc_params", "val")
+            ns, dn, tau = named(w, "n_spin", "val"), named(w, "dn_spin", "val"), named(w, "tau", "val")
+
+            def run(it):
+                f = it.lookup_global("get_Exc", mod)
+                return it.call(f, [scf, named(w, "n", "val")], {"n_spin": ns, "dn_spin": dn, "tau": tau, "Nspin": 2}), None
+
+            res = explore(w, run, ext=ext)
+            if not res or any(r.outcome != "return" for r in res):
+                raise OutsideSubset(f"get_Exc: {[r.outcome for r in res]}")
+            if len(seen) != 1:
+                return self.refute(f"{len(seen)} evaluations of the energy density")
+            d = seen[0]
+            for key, want in (("xc", scf.xc), ("xc_params", scf.xc_params), ("n_spin", ns), ("dn_spin", dn), ("tau", tau)):
+                got = d.get(key)
+                if not (isinstance(got, Sym) and got.e.eq(want.e)):
+                    return self.refute(f"the energy density is evaluated with {key}={got!r} instead of the {'SCF object' if key.startswith('xc') else 'given'} {key}")
+            if d.get("Nspin") != 2:
+                return self.refute(f"Nspin={d.get('Nspin')!r} is passed instead of the requested 2")
+            return Result(DISCHARGED, backend="engine-Z", detail="get_Exc evaluates get_exc(scf.xc, n_spin, Nspin, dn_spin, tau, scf.xc_params)")
+        except (OutsideSubset, PyRaise, TypeError, AttributeError, KeyError, ValueError, IndexError) as e:
+            ok, info = self.replay({})
+            if ok:
+                return Result(REFUTED, backend="native-contract-evaluation", witness=dict(case="pbe mu=0.1"), replayed=True, replay_info=info,
+                              detail=f"get_Exc ignores the functional parameters of the SCF object ({type(e).__name__}: {e})")
+            return Result(UNDECIDED, backend="engine-Z", detail=f"outside subset: {type(e).__name__}: {e}")
+
+    def refute(self, msg):
+        ok, info = self.replay({})
+        return Result(REFUTED, backend="engine-Z", witness=dict(case="pbe mu=0.1"), replayed=ok, replay_info=info, detail=f"get_Exc: {msg}")
+
+    def replay(self, wit):
+        import eminus
+        from eminus import SCF, Atoms
+        from eminus.energies import get_Exc
+        from eminus.xc import get_exc
+
+        eminus.config.backend = "numpy"
+        eminus.config.verbose = "critical"
+        at = Atoms("He", [0, 0, 0], ecut=3, a=6, unrestricted=True)
+        scf = SCF(at, xc="pbe", opt={"sd": 2})
+        scf.xc_params = {"mu": 0.1, "beta": 0.03}
+        scf.run()
+        n_spin, dn = scf.n_spin, scf.dn_spin
+        n = np.sum(np.asarray(n_spin), axis=0)
+        got = get_Exc(scf, n, n_spin=n_spin, dn_spin=dn, Nspin=2)
+        exc = get_exc(scf.xc, n_spin, 2, dn, None, scf.xc_params)
+        want = get_Exc(scf, n, exc=exc)
+        return bool(abs(got - want) > 1e-10), dict(check="He, PBE with mu=0.1, beta=0.03: get_Exc(n_spin=...) vs get_Exc(exc=get_exc(..., scf.xc_params))", got=float(got), expected=float(want))
+
+
+register(Obligation(name="C16.get_Exc.functional_and_parameters_of_scf", prop=PROP, engine="Z", functions=["eminus.energies:get_Exc"], run=ExcSameFunctional(),
+                    assumes=("engineZ",), doc="get_Exc evaluates the energy density with scf.xc AND scf.xc_params and the densities / gradients / tau it is given (used per orbital by get_Esic)"))
